@@ -58,43 +58,31 @@ def random_schedules(seed, n, big):
     return out
 
 
-def mutators():
-    def flip_status(t):
-        for e in t:
-            if e.get("ev") == "Add" and e["d"]["dl"] >= 0:
-                e["res"] = "Expired" if e["res"] == "Scheduled" else "Scheduled"
-                # only a control if the answer was not at the equality instant (where both are allowed)
-                return t
-        return None
+def control_traces():
+    """Negative controls for the binding: hand-made traces, each one event away from a valid one (the valid base is
+    checked too: it must be accepted).  Deterministic, so the self-test cannot depend on what the random schedules
+    happened to contain."""
+    a = {"id": "a", "dl": 2}
+    b = {"id": "b", "dl": 3}
+    none = {"id": "none", "dl": 1000000}
+    base = [{"ev": "Reset", "sid": 0}, {"ev": "Add", "d": a, "res": "Scheduled"}, {"ev": "Add", "d": b, "res": "Scheduled"},
+            {"ev": "Advance", "by": 2}, {"ev": "Read", "got": a}, {"ev": "Read", "got": none}, {"ev": "Advance", "by": 1},
+            {"ev": "Read", "got": b}, {"ev": "Add", "d": a, "res": "Expired"}]
 
-    def wrong_read(t):
-        for e in t:
-            if e.get("ev") == "Read" and e["got"]["id"] != "none":
-                e["got"] = {"id": "zz", "dl": e["got"]["dl"]}
-                return t
-        return None
-
-    def drop_advance(t):
-        seen_read = False
-        for i, e in enumerate(t):
-            if e.get("ev") == "Advance":
-                # drop an Advance that is followed by a successful read
-                for f in t[i + 1:]:
-                    if f.get("ev") == "Read" and f["got"]["id"] != "none":
-                        del t[i]
-                        return t
-                return None
-        return None
-
-    def early_report(t):
-        # pretend a duty was read before any clock advance
-        for i, e in enumerate(t):
-            if e.get("ev") == "Add" and e["d"]["dl"] > 0 and e.get("res") == "Scheduled":
-                t.insert(i + 1, {"ev": "Read", "got": e["d"]})
-                return t[:i + 2]
-        return None
-    return [("status flipped", flip_status), ("read value replaced", wrong_read),
-            ("Advance event dropped", drop_advance), ("early report inserted", early_report)]
+    def edit(i, **kw):
+        t = [dict(e) for e in base]
+        t[i].update(kw)
+        return t
+    bad = [
+        ("status flipped (Scheduled -> Expired before the deadline)", edit(1, res="Expired")),
+        ("status flipped (Expired -> Scheduled after the deadline)", edit(8, res="Scheduled")),
+        ("read value replaced", edit(4, got={"id": "zz", "dl": 2})),
+        ("Advance event dropped (a report before its deadline)", base[:3] + base[4:]),
+        ("early report inserted", base[:2] + [{"ev": "Read", "got": a}]),
+        ("report order swapped", edit(4, got=b)),
+        ("missing report (C() empty although a deadline passed)", edit(4, got=none)),
+    ]
+    return base, bad
 
 
 def run(tier, seed):
@@ -121,9 +109,17 @@ def run(tier, seed):
     # stage 2+3
     vlib.conformance(o, FAMILY, "DeadlinerTrace", "DeadlinerTrace.cfg", "c16", scheds, tag="tlcgen")
     vlib.conformance(o, FAMILY, "DeadlinerTrace", "DeadlinerTrace.cfg", "c16", rnd, tag="random")
-    # binding negative controls on recorded traces
-    tr = vlib.split_traces(vlib.read_ndjson(vlib.workdir("C16") + "/trace_random.ndjson"))
-    vlib.binding_selftest(o, FAMILY, "DeadlinerTrace", "DeadlinerTrace.cfg", tr, mutators())
+    # binding negative controls (deterministic hand-made traces: the base must be accepted, every corruption rejected)
+    base, bad = control_traces()
+    v = vlib.validate_traces("C16", FAMILY, "DeadlinerTrace", "DeadlinerTrace.cfg", [base] + [t for _, t in bad])
+    rejected = {i for i, _, _ in v.rejected}
+    if 0 in rejected:
+        raise vlib.Infra("binding self-test: the valid base trace was rejected")
+    for k, (name, _) in enumerate(bad):
+        ok = (k + 1) in rejected
+        o.selftests.append({"control": name, "rejected_as_required": ok})
+        if not ok:
+            raise vlib.Infra("binding self-test failed: corrupted trace (%s) was accepted by DeadlinerTrace" % name)
     return vlib.finish(o, "model_checking", RULE,
                        ["fake clock (clockwork.FakeClock) stands in for real time; quiescence = sentinel Add answered and one armed fake-clock waiter",
                         "a duty registered exactly at its deadline may be answered Scheduled or Expired (the property is silent)",
